@@ -128,13 +128,13 @@ def run_shard(spec, acc):
                         acc.worst_of('%s x %s (%s)' % (k_test, k_trial, 'exact' if exact else 'quad'), err)
                         if not (err <= 1e-7):
                             key = 'not-additive:test-%s:trial-%s:%s' % (k_test, k_trial, 'exact' if exact else 'quad')
-                            # the recorded accuracy limit of C01 (pairs across a polygon corner with length ratio >= 32) shows here too
-                            hx_t = test.h_x / (2 if k_test in ('space', 'quarter') else 1)
-                            hx_r = trial.h_x / (2 if k_trial in ('space', 'quarter') else 1)
-                            rel = slpairs.space_relation(geo, test.space_interval, trial.space_interval)
-                            other_piece = geo.piece_of(*test.space_interval) != geo.piece_of(*trial.space_interval)
-                            if other_piece and max(hx_t / hx_r, hx_r / hx_t, test.h_x / trial.h_x, trial.h_x / test.h_x) >= 32 * (1 - 1e-9):
-                                key = 'not-additive:across-corner:size-ratio>=32'
+                            # the recorded accuracy limit K4 of C01 (near-singular pairs around a corner) shows here too: whole and pieces are
+                            # each off by up to the measured envelope, so their difference may reach twice the largest of these bounds
+                            bounds = [slpairs.k4_envelope(slpairs.corner_nearness(geo, te.space_interval, tr.space_interval))
+                                      for te in [test] + split(test, k_test) for tr in [trial] + split(trial, k_trial)]
+                            bounds = [b for b in bounds if b is not None]
+                            if bounds and err <= 2 * max(bounds):
+                                key = 'not-additive:across-corner:near-singular'
                             acc.violation(key,
                                           '%s: whole %.17g, sum of pieces %.17g, difference %.3e of sqrt(D_test D_trial)' % (curve, whole, total, err),
                                           dict(wit0, test=(test.time_interval, test.space_interval), trial=(trial.time_interval, trial.space_interval),
